@@ -21,7 +21,7 @@
      * the rigid estimators (SVD / least squares), Eigen and <random>. *)
 From Coq Require Import Reals ZArith List Bool Lra Lia Sorted Permutation.
 From Flocq Require Import Core.Raux.
-From Romea Require Import Num NumR RansacModel IcpModel RansacProofs EstimateProofs RigidProofs IcpProofs.
+From Romea Require Import Num NumR RansacModel IcpModel RansacProofs EstimateProofs RigidProofs IcpProofs RansacProbability.
 From Romea.gen Require Import RepoConstants.
 Import ListNotations.
 
@@ -71,6 +71,30 @@ Proof.
   split; [rewrite A; exact A'|]. split; [rewrite B; exact B'|]. apply iters_fold_nonneg.
 Qed.
 Print Assumptions C06_iterations_reachable.
+
+(* What the bound means (pure real analysis about the formula; independence of the draws is the textbook idealisation):
+   with q the probability that a draw is contaminated and p the requested confidence, the kept count K = floor(L),
+   L = ln(1-p)/ln q, satisfies  q^(K+1) < 1-p <= q^K : after K draws the probability that every draw was contaminated is
+   still at least 1-p (the confidence reached is 1 - q^K, in (1-(1-p)/q, p]); one more draw would reach p.  The size_t
+   conversion truncates where the textbook rule rounds up. *)
+Theorem C06_iterations_probability_bracket : forall q p : R,
+  (0 < q < 1)%R -> (0 < p < 1)%R ->
+  let L := (ln (1 - p) / ln q)%R in
+  let K := Z.to_nat (Zfloor L) in
+  (0 < L)%R /\ (q ^ (S K) < 1 - p <= q ^ K)%R.
+Proof. exact iterations_bracket. Qed.
+Print Assumptions C06_iterations_probability_bracket.
+
+(* the same for the count RansacIterations::update stores, whenever the update lowers it *)
+Theorem C06_iterations_update_probability : forall (s : iters R) (npoints : Z) (p : R) (k sdraw : Z),
+  it_logopp s = ln (1 - p) -> it_oneovern s = (/ IZR npoints)%R ->
+  (0 < p < 1)%R -> (1 <= npoints)%Z -> (1 <= k)%Z -> (0 <= sdraw)%Z ->
+  let q := q_clamped (IZR k / IZR npoints) (Z.to_nat sdraw) in
+  (iters_get (iters_update ROps s k sdraw) < iters_get s)%Z ->
+  let K := Z.to_nat (iters_get (iters_update ROps s k sdraw)) in
+  (q ^ (S K) < 1 - p <= q ^ K)%R.
+Proof. exact iterations_update_bracket. Qed.
+Print Assumptions C06_iterations_update_probability.
 
 Example C06_iterations_example :
   iters_run ROps (iters_init ROps 100 (99/100)%R 1000) 3 [] = [1000%Z] /\ (0 < 99/100 < 1)%R.
